@@ -221,8 +221,9 @@ class Patches:
 
     def __enter__(self):
         from joserfc import jws, jwe, _keys
+        from joserfc.rfc7797 import compact as c77, json as j77
         h = self.h
-        self.saved = (jws.guess_key, jwe.guess_key, jwe._guess_sender_key, _keys.random)
+        self.saved = (jws.guess_key, jwe.guess_key, jwe._guess_sender_key, _keys.random, c77.guess_key, j77.guess_key)
 
         def wrap_guess(orig):
             def w(key, obj, use_random=False):
@@ -263,11 +264,14 @@ class Patches:
         jwe.guess_key = wrap_guess(self.saved[1])
         jwe._guess_sender_key = wrap_sender(self.saved[2])
         _keys.random = FakeRandom(h)
+        c77.guess_key = wrap_guess(self.saved[4])
+        j77.guess_key = wrap_guess(self.saved[5])
         return self
 
     def __exit__(self, *a):
         from joserfc import jws, jwe, _keys
-        jws.guess_key, jwe.guess_key, jwe._guess_sender_key, _keys.random = self.saved
+        from joserfc.rfc7797 import compact as c77, json as j77
+        jws.guess_key, jwe.guess_key, jwe._guess_sender_key, _keys.random, c77.guess_key, j77.guess_key = self.saved
 
 
 # ----------------------------------------------------------------------------
@@ -359,9 +363,16 @@ def produce(h, spec):
     fam, ser = spec["fam"], spec["ser"]
     inputs = copy.deepcopy(spec["hdrs"])
     hd = copy.deepcopy(spec["hdrs"])
-    payload = b"c14 payload"
+    payload = bytes.fromhex(spec["payload_hex"]) if "payload_hex" in spec else b"c14 payload"
     if fam == "jws":
-        if ser == "compact":
+        from joserfc import rfc7797
+        if ser == "c7797":
+            pre = [("GJwsCompact", inputs[0]["protected"], None, None)]
+            out = call(rfc7797.serialize_compact, hd[0]["protected"], payload, arg, algorithms=algs_of(spec))
+        elif ser == "j7797":
+            pre = [("GJwsMember", inputs[0].get("protected"), None, inputs[0].get("header"))]
+            out = call(rfc7797.serialize_json, hd[0], payload.decode("utf-8"), arg, algorithms=algs_of(spec))
+        elif ser == "compact":
             pre = [("GJwsCompact", inputs[0]["protected"], None, None)]
             out = call(jws.serialize_compact, hd[0]["protected"], payload, arg, algorithms=algs_of(spec))
         elif ser == "jwt":
@@ -389,13 +400,14 @@ def produce(h, spec):
             pre = [("GJweJson", inputs["protected"], inputs.get("unprotected"), rh) for rh in inputs["recipients"]]
             out = call(jwe.encrypt_json, obj, arg, registry=reg, sender_key=sarg)
     return {"spec": spec, "desc": desc, "mdesc": mdesc, "keys": keys, "ks": ks, "sdesc": sdesc, "skeys": skeys,
-            "pre": pre, "out": out, "log": h.log, "choices": h.choices, "raw_before": raw_before, "ur": True}
+            "pre": pre, "out": out, "log": h.log, "choices": h.choices, "raw_before": raw_before, "ur": True,
+            "caller_hdrs": hd}
 
 
 def token_guests(fam, ser, token):
     """header objects of a serialized token, derived here (not by joserfc)"""
     if fam == "jws":
-        if ser in ("compact", "jwt"):
+        if ser in ("compact", "jwt", "c7797"):
             t = token.decode() if isinstance(token, bytes) else token
             return [("GJwsCompact", json.loads(b64u_dec(t.split(".")[0])), None, None)]
         sigs = token["signatures"] if "signatures" in token else [token]
@@ -431,7 +443,13 @@ def consume(h, spec):
     fam, ser, token = spec["fam"], spec["ser"], copy.deepcopy(spec["token"])
     pre = token_guests(fam, ser, spec["token"])
     if fam == "jws":
-        if ser == "compact":
+        from joserfc import rfc7797
+        if ser == "c7797":
+            pl = bytes.fromhex(spec["payload_hex"]) if spec.get("give_payload") else None
+            out = call(rfc7797.deserialize_compact, token, arg, payload=pl, algorithms=algs_of(spec))
+        elif ser == "j7797":
+            out = call(rfc7797.deserialize_json, token, arg, algorithms=algs_of(spec))
+        elif ser == "compact":
             out = call(jws.deserialize_compact, token, arg, algorithms=algs_of(spec))
         elif ser == "jwt":
             out = call(jwt.decode, token, arg, algorithms=algs_of(spec))
@@ -454,6 +472,8 @@ def split_token(fam, ser, token):
     """-> list of single-member tokens (ser', token')"""
     if ser in ("compact", "jwt"):
         return [("compact", token)]
+    if ser in ("c7797", "j7797"):
+        return [(ser, token)]
     if fam == "jws":
         if "signatures" in token:
             return [("flat", {"payload": token["payload"], **copy.deepcopy(s)}) for s in token["signatures"]]
@@ -468,13 +488,17 @@ def split_token(fam, ser, token):
     return [("flat", token)]
 
 
-def accepts(h, fam, ser, token, key, algs, sender=None):
-    from joserfc import jws, jwe
+def accepts(h, fam, ser, token, key, algs, sender=None, payload=None):
+    from joserfc import jws, jwe, rfc7797
     old = h.logging
     h.logging = False
     try:
         token = copy.deepcopy(token)
-        if fam == "jws":
+        if ser == "c7797":
+            r = call(rfc7797.deserialize_compact, token, key, payload=payload, algorithms=algs)
+        elif ser == "j7797":
+            r = call(rfc7797.deserialize_json, token, key, algorithms=algs)
+        elif fam == "jws":
             r = call(jws.deserialize_compact, token, key, algorithms=algs) if ser == "compact" else \
                 call(jws.deserialize_json, token, key, algorithms=algs)
         else:
@@ -544,10 +568,14 @@ def entry_case(h, rec, pids):
         impl = "(Err EOracleMiss)"
     elif rec["out"][0] == "ok":
         items = []
+        emitted = token_guests(fam, rec["spec"]["ser"], rec["out"][1]) if (fam == "jws" and rec["ur"]) else None
         for i in range(n):
             g = groups[i]
             kid_id = g["guess"]["res"][1][0]
             last_guest = g["last"]["res"][1][-1]
+            if emitted is not None:
+                # producing side: the header object as parsed (here) from the EMITTED token
+                last_guest = emitted[i]
             if fam == "jws":
                 items.append("(%s, %s)" % (c_N(kid_id), c_guest(last_guest)))
             else:
@@ -559,7 +587,9 @@ def entry_case(h, rec, pids):
     if fam == "jws":
         ms = c_list(["(%s, %s, %s)" % (c_guest(rec["pre"][i]), c_nat(idx_of(groups[i]["guess"]) if i < len(groups) else 0),
                                        c_N(pids[i])) for i in range(n)])
-        return "CJws %s %s %s %s %s %s" % (h.tsel(), c_bool(rec["ur"]), c_mode(h, rec["mdesc"]), c_src(h, rec["desc"]), ms, impl)
+        kc = not (rec["ur"] and rec["spec"]["ser"] == "j7797" and merged(rec["pre"][0]).get("b64") is False)
+        return "CJws %s %s %s %s %s %s %s" % (h.tsel(), c_bool(rec["ur"]), c_bool(kc), c_mode(h, rec["mdesc"]),
+                                              c_src(h, rec["desc"]), ms, impl)
     rs = c_list(["(%s, %s, %s, %s)" % (c_guest(rec["pre"][i]),
                                        c_nat(idx_of(groups[i]["guess"]) if i < len(groups) else 0),
                                        c_nat(idx_of(groups[i]["sender"]) if i < len(groups) else 0),
@@ -606,7 +636,7 @@ def check_produced(h, rec, report):
         senders = rec["skeys"] if rec["sdesc"] is not None else [None]
         ids = []
         for k in set_keys:
-            if any(accepts(h, fam, pser, ptok, k, algs, s) for s in senders):
+            if any(accepts(h, fam, pser, ptok, k, algs, s, payload=_payload_of(spec)) for s in senders):
                 ids.append(h.mid(k))
         if len(set(ids)) != 1:
             report({"kind": "produced-token-key-not-identifiable", "fam": fam, "ser": ser},
@@ -635,17 +665,21 @@ def check_produced(h, rec, report):
             if et is not None and ukey.key_type not in et:
                 report({"kind": "produce-picked-wrong-key-type", "fam": fam, "ser": ser, "alg": alg},
                        "alg %s: picked a %s key" % (alg, ukey.key_type), spec, {"member": i})
-            pos = gout[1] if ser in ("compact", "jwt") else gout[3]
+            pos = gout[1] if ser in ("compact", "jwt", "c7797") else gout[3]
             if not isinstance(pos, dict) or pos.get("kid") != ukey.kid:
                 report({"kind": "produce-kid-not-recorded", "fam": fam, "ser": ser},
                        "no kid in the header: token made with key kid=%r but the %s header of the token says %r" % (
-                           ukey.kid, "protected" if ser in ("compact", "jwt") else "unprotected/per-recipient",
+                           ukey.kid, "protected (signed)" if ser in ("compact", "jwt", "c7797") else "unprotected/per-recipient",
                            pos.get("kid") if isinstance(pos, dict) else pos), spec, {"member": i})
             if hout.get("kid") != ukey.kid:
                 report({"kind": "produce-kid-not-effective", "fam": fam, "ser": ser},
                        "effective kid of the produced header is %r, key used has kid %r" % (hout.get("kid"), ukey.kid),
                        spec, {"member": i})
     return used
+
+
+def _payload_of(spec):
+    return bytes.fromhex(spec["payload_hex"]) if "payload_hex" in spec else None
 
 
 def expected_consume(h, keys, guests, pids):
@@ -795,15 +829,24 @@ def gen_jws_produce(h):
     if kty == "OKP" and rng.random() < 0.8:
         subs = {"OKP": ["Ed25519"]}
     specs = gen_set(h, [kty], subs=subs)
-    ser = rng.choice(["compact", "compact", "flat", "flat", "general", "jwt"])
+    ser = rng.choice(["compact", "compact", "flat", "flat", "general", "jwt", "c7797", "c7797", "c7797", "j7797", "j7797"])
     spec = {"fam": "jws", "ser": ser, "keys": specs, "algs": [alg]}
     gen_mode(h, spec, [kty])
     nm = rng.choice([1, 2, 2, 3]) if ser == "general" else 1
+    b64 = None
+    if ser in ("c7797", "j7797"):
+        # RFC 7797: b64 false (unencoded payload, attached when URL-safe, else detached), true, or absent
+        b64 = rng.choice([False, False, False, True, None])
+        pls = [b"c14-payload~x_1", b"c14 payload $", "c14 \u00e9".encode()] + ([b"\xff\xfe c14"] if ser == "c7797" else [])
+        spec["payload_hex"] = rng.choice(pls).hex()
     hdrs = []
     for _ in range(nm):
         present, kid = gen_hdr_kid(h, specs, [kty])
-        if ser in ("compact", "jwt"):
+        if ser in ("compact", "jwt", "c7797"):
             prot = {"alg": alg}
+            if b64 is not None:
+                prot["b64"] = b64
+                prot["crit"] = ["b64"]
             if present:
                 prot["kid"] = kid
             if rng.random() < 0.2:
@@ -815,6 +858,9 @@ def gen_jws_produce(h):
             m = {}
             prot, hdr = {}, {}
             (prot if alg_pos == "protected" else hdr)["alg"] = alg
+            if b64 is not None:
+                prot["b64"] = b64
+                prot["crit"] = ["b64"]
             if "protected" in where:
                 prot["kid"] = where["protected"]
             if "header" in where:
@@ -950,6 +996,19 @@ def forge_jws(h, key, alg, ser, members, payload=b"forged"):
     sigs = []
     for prot, hdr in members:
         hseg = b64u(json.dumps(prot, separators=(",", ":")).encode()) if prot else ""
+        if ser in ("c7797", "j7797"):
+            # RFC 7797, b64 = false: the signing input carries the payload itself
+            sig = b64u(algm.sign(hseg.encode() + b"." + payload, key))
+            if ser == "c7797":
+                import re
+                att = re.match(rb"^[a-zA-Z0-9\-_~]+$", payload) is not None
+                return hseg + "." + (payload.decode() if att else "") + "." + sig
+            out = {"payload": payload.decode(), "signature": sig}
+            if prot:
+                out["protected"] = hseg
+            if hdr is not None:
+                out["header"] = hdr
+            return out
         sig = b64u(algm.sign((hseg + "." + pseg).encode(), key))
         if ser in ("compact", "jwt"):
             return hseg + "." + pseg + "." + sig
@@ -1095,6 +1154,14 @@ def main_loop(ctx, h, add, report, dist, onepu=False):
         # ------------------------------------------------------------ consume what was produced
         cons = []
         base = {"fam": fam, "ser": ser, "token": token, "algs": spec["algs"], "sender": spec.get("sender")}
+        if "payload_hex" in spec:
+            base["payload_hex"] = spec["payload_hex"]
+            # a detached payload must be handed to the consumer; an attached one may be
+            detached = ser == "c7797" and isinstance(token, str) and token.split(".")[1] == "" and bool(_payload_of(spec))
+            base["give_payload"] = detached or rng.random() < 0.3
+            cv = rec["caller_hdrs"][0].get("protected") if ser == "c7797" else rec["caller_hdrs"][0].get("header")
+            k = "caller_dict_has_kid" if isinstance(cv, dict) and "kid" in cv else "caller_dict_without_kid"
+            dist[k] = dist.get(k, 0) + 1
         if spec["src"] in ("set", "key"):
             cons.append(dict(base, keys=spec["keys"], src="set", mode="direct"))
             cons.append(dict(base, keys=spec["keys"], src="set", mode="call"))
@@ -1262,20 +1329,25 @@ def public_roundtrip(h, rec, used, token, report, add):
         return
     if any(k.is_private for k in pks.keys):
         return
-    from joserfc import jws, jwt
+    from joserfc import jws, jwt, rfc7797
     h.log, h.choices = [], []
     arg = pks if h.rng.random() < 0.5 else (lambda obj: pks)
-    if ser == "compact":
+    if ser == "c7797":
+        out = call(rfc7797.deserialize_compact, token, arg, payload=_payload_of(spec), algorithms=spec["algs"])
+    elif ser == "j7797":
+        out = call(rfc7797.deserialize_json, copy.deepcopy(token), arg, algorithms=spec["algs"])
+    elif ser == "compact":
         out = call(jws.deserialize_compact, token, arg, algorithms=spec["algs"])
     elif ser == "jwt":
         out = call(jwt.decode, token, arg, algorithms=spec["algs"])
     else:
         out = call(jws.deserialize_json, copy.deepcopy(token), arg, algorithms=spec["algs"])
     log = h.log
-    guests = token_guests(fam, ser, token)
-    verdicts = expected_consume(h, pks.keys, guests, used)
-    if not all(v == "ok" for v in verdicts):
+    kids = [k.kid for k in rec["keys"]]
+    if len(set(kids)) != len(kids):
         return          # duplicate kids: the kid recorded does not name the producing key uniquely
+    if any(bool(merged(g).get("kid")) and not any(k.kid == merged(g).get("kid") for k in rec["keys"]) for g in rec["pre"]):
+        return          # (cannot happen for a produced token: an unknown kid was named)
     if out[0] != "ok":
         report({"kind": "public-set-rejects", "fam": fam, "ser": ser},
                "token produced with the private key set is rejected by the imported public export of the same set: %r" % (out[1],), spec)
@@ -1355,10 +1427,28 @@ def forged_consume(ctx, h, add, report, spec, rec):
             present, kid = True, rng.choice(["nope", fkey.kid + "x", fkey.kid[:-1], "", "K"])
         else:
             present, kid = True, copy.deepcopy(rng.choice(NONSTR_KIDS))
-        fser = rng.choice(["compact", "flat", "general", "jwt"]) if fam == "jws" else ser
+        fser = rng.choice(["compact", "flat", "general", "jwt", "c7797", "c7797", "j7797"]) if fam == "jws" else ser
         token = None
+        give_payload = False
         if fam == "jws":
-            if fser in ("compact", "jwt"):
+            if fser == "c7797":
+                prot = {"alg": alg, "b64": False, "crit": ["b64"]}
+                if present:
+                    prot["kid"] = kid
+                members = [(prot, None)]
+                payload = rng.choice([b"forged~1", b"forged $ payload"])
+                give_payload = payload != b"forged~1" or rng.random() < 0.3
+            elif fser == "j7797":
+                prot = {"alg": alg, "b64": False, "crit": ["b64"]}
+                where = place_kid(rng, present, kid, ["protected", "header"])
+                hdr = {}
+                if "protected" in where:
+                    prot["kid"] = where["protected"]
+                if "header" in where:
+                    hdr["kid"] = where["header"]
+                members = [(prot, hdr if (hdr or rng.random() < 0.2) else None)]
+                payload = rng.choice([b"forged~1", b"forged $ payload"])
+            elif fser in ("compact", "jwt"):
                 prot = {"alg": alg}
                 if present:
                     prot["kid"] = kid
@@ -1433,6 +1523,9 @@ def forged_consume(ctx, h, add, report, spec, rec):
         mode = rng.choice(["direct", "direct", "call"])
         cs = {"fam": fam, "ser": fser, "token": token, "algs": spec["algs"], "keys": spec["keys"], "src": "set", "mode": mode,
               "sender": spec.get("sender"), "pids": pids}
+        if fam == "jws" and fser in ("c7797", "j7797"):
+            cs["payload_hex"] = payload.hex()
+            cs["give_payload"] = give_payload
         if rng.random() < 0.12 and len(spec["keys"]) > 1:
             cs["keys"] = [spec["keys"][fi]] if rng.random() < 0.6 else [rng.choice(spec["keys"])]   # single-key set
         crec = consume(h, cs)
